@@ -122,7 +122,8 @@ class Sum(Sequential):
 
     def backward_var(self, grad, index, **kwargs):
         (a,) = self.variables
-        if self.axis is None:
+        if self.axis is None or a.ndim == 0:
+            # (numpy accepts axis=0 / axis=-1 for a 0D array: there is nothing to expand)
             return np.full(a.shape, grad, dtype=a.dtype)
 
         if not self.keepdims:
